@@ -432,22 +432,6 @@ func (ex *Explorer) Resolve(st *State, v ssa.Value) ssa.Value {
 				}
 			}
 			return v
-		case *ssa.Call:
-			if st != nil {
-				if res, ok := st.callres[x]; ok && len(res) == 1 && res[0].V != nil && res[0].V != v {
-					v = res[0].V
-					continue
-				}
-			}
-			return v
-		case *ssa.Extract:
-			if call, ok := x.Tuple.(*ssa.Call); ok && st != nil {
-				if res, ok := st.callres[call]; ok && x.Index < len(res) && res[x.Index].V != nil && res[x.Index].V != v {
-					v = res[x.Index].V
-					continue
-				}
-			}
-			return v
 		case *ssa.ChangeType:
 			v = x.X
 			continue
